@@ -159,7 +159,7 @@ func init() {
 		Title:    "Satisfies = Boolean truth of the expression under the allowed list",
 		Explorer: "E1 bounded-exhaustive tree x labelling x allowed-list enumeration vs R-bool over the implementation's single-term verdicts",
 		Rule: "S1: every binary tree with <= N leaves, every AND/OR labelling, every leaf labelling over 4 atoms (2 licences, 2 references), rendered fully parenthesised, with minimal parentheses and with flat right chains / parenthesised left groups, x every non-empty subset of the atoms as allowed list; " +
-			"S3: every shape and AND/OR labelling with all-distinct leaves up to 7 (thorough 8) leaves x {all, all-but-one, single} allowed lists; S2: every tree <= 3 leaves over 15 rich terms (+, -only, -or-later, WITH, refs, case) x every allowed list up to a length bound over 16 overlapping entries (with repetition, re-spellings); " +
+			"S3: every shape and AND/OR labelling with all-distinct leaves up to 7 (thorough 8) leaves x {all, all-but-one, single} allowed lists; S5: every tree <= 3 leaves over the 5-7 ways of writing one license (x, x+, x-only, x-or-later, x WITH e, x+ WITH e, x WITH f; 4 licenses) x lists over the same terms; S6: for every family of the version table, every tree <= 2 (thorough 3) leaves over its first, second and last version x lists of <= 2 entries over those ids with and without '+'; S2: every tree <= 3 leaves over 15 rich terms (+, -only, -or-later, WITH, refs, case) x every allowed list up to a length bound over 16 overlapping entries (with repetition, re-spellings); " +
 			"state = (expression text, allowed list), transition = one Satisfies call; non-trivial = the tree mentions >= 2 distinct terms and the truth assignment restricted to them is neither all-false nor all-true",
 		Assumptions: []string{
 			"truth of a leaf = exists allowed entry b with Satisfies(term,[b]) (the implementation's own single-term verdict, as the property states); the matching relation itself is C02's subject",
@@ -423,80 +423,129 @@ func c01Run(c *Ctx) {
 		}
 	}
 
-	// ---- S2
-	atoms := c01Rich
-	single := directSingle(atoms)
-	trees := TreesUpTo(3, len(atoms))
+	// ---- S2 / S5 / S6: rich terms against lists with repetition
 	type plan struct{ leaves, listLen int }
+	sweep := func(atoms, entries []string, plans []plan) bool {
+		single := directSingle(atoms)
+		maxLeaves := 0
+		for _, pl := range plans {
+			if pl.leaves > maxLeaves {
+				maxLeaves = pl.leaves
+			}
+		}
+		trees := TreesUpTo(maxLeaves, len(atoms))
+		for _, pl := range plans {
+			var lists [][]string
+			for l := 1; l <= pl.listLen; l++ {
+				var li int64
+				forSeqs(len(entries), l, &li, func(_ int64, s []int) bool {
+					x := make([]string, l)
+					for k, e := range s {
+						x[k] = entries[e]
+					}
+					lists = append(lists, x)
+					return true
+				})
+			}
+			for _, t := range trees[pl.leaves] {
+				ti++
+				if !c.Mine(ti) {
+					continue
+				}
+				if c.Expired() {
+					return false
+				}
+				c.Inc("trees")
+				full, min := t.RenderFull(atoms, true), t.RenderMin(atoms)
+				texts := []string{full}
+				if min != full {
+					texts = append(texts, min)
+				}
+				if x := t.RenderAssoc(atoms); x != full && x != min {
+					texts = append(texts, x)
+				}
+				as := t.AtomSet()
+				for _, expr := range texts {
+					if !c.Begin(expr) {
+						continue
+					}
+					for _, l := range lists {
+						msg, skip, truth, want := c01Check(t, atoms, expr, l, single)
+						c.Inc("states")
+						c.Inc("transitions")
+						c.Inc("evaluations")
+						if skip != "" {
+							c.Inc("skipped_" + strings.ReplaceAll(skip, " ", "_"))
+							c.Outcome("skipped")
+							continue
+						}
+						c.Inc("traces")
+						if popcount(as) >= 2 && truth&as != 0 && truth&as != as {
+							c.Inc("nontrivial")
+						}
+						if want {
+							c.Outcome("satisfied")
+						} else {
+							c.Outcome("unsatisfied")
+						}
+						if msg != "" {
+							c01Report(c, t, atoms, expr, l, msg)
+						}
+					}
+				}
+				c.Sample(func() any {
+					return map[string]any{"expr": min, "allowed_lists": fmt.Sprintf("all %d lists of length <= %d over %d entries", len(lists), pl.listLen, len(entries))}
+				})
+			}
+		}
+		return true
+	}
 	plans := []plan{{1, 3}, {2, 2}, {3, 1}}
 	if thorough {
 		plans = []plan{{1, 4}, {2, 3}, {3, 2}}
 	}
-	c.Bound("S2", map[string]any{"terms": atoms, "entries": c01Entries, "plans(leaves,max_list_len)": plans})
-	for _, pl := range plans {
-		var lists [][]string
-		for l := 1; l <= pl.listLen; l++ {
-			var li int64
-			forSeqs(len(c01Entries), l, &li, func(_ int64, s []int) bool {
-				x := make([]string, l)
-				for k, e := range s {
-					x[k] = c01Entries[e]
-				}
-				lists = append(lists, x)
-				return true
-			})
-		}
-		for _, t := range trees[pl.leaves] {
-			ti++
-			if !c.Mine(ti) {
-				continue
-			}
-			if c.Expired() {
-				return
-			}
-			c.Inc("trees")
-			full, min := t.RenderFull(atoms, true), t.RenderMin(atoms)
-			texts := []string{full}
-			if min != full {
-				texts = append(texts, min)
-			}
-			if x := t.RenderAssoc(atoms); x != full && x != min {
-				texts = append(texts, x)
-			}
-			as := t.AtomSet()
-			for _, expr := range texts {
-				if !c.Begin(expr) {
-					continue
-				}
-				for _, l := range lists {
-					msg, skip, truth, want := c01Check(t, atoms, expr, l, single)
-					c.Inc("states")
-					c.Inc("transitions")
-					c.Inc("evaluations")
-					if skip != "" {
-						c.Inc("skipped_" + strings.ReplaceAll(skip, " ", "_"))
-						c.Outcome("skipped")
-						continue
-					}
-					c.Inc("traces")
-					if popcount(as) >= 2 && truth&as != 0 && truth&as != as {
-						c.Inc("nontrivial")
-					}
-					if want {
-						c.Outcome("satisfied")
-					} else {
-						c.Outcome("unsatisfied")
-					}
-					if msg != "" {
-						c01Report(c, t, atoms, expr, l, msg)
-					}
-				}
-			}
-			c.Sample(func() any {
-				return map[string]any{"expr": min, "allowed_lists": fmt.Sprintf("all %d lists of length <= %d over the 14 entries", len(lists), pl.listLen)}
-			})
+	c.Bound("S2", map[string]any{"terms": c01Rich, "entries": c01Entries, "plans(leaves,max_list_len)": plans})
+	if !sweep(c01Rich, c01Entries, plans) {
+		return
+	}
+	// ---- S5: every way of writing ONE license, as terms and as entries
+	p5 := []plan{{1, 2}, {2, 2}, {3, 1}}
+	if thorough {
+		p5 = []plan{{1, 3}, {2, 2}, {3, 2}}
+	}
+	var s5 []map[string]any
+	for _, x := range variantIDs {
+		v := idVariants(x)
+		s5 = append(s5, map[string]any{"license": x, "terms_and_entries": v})
+		if !sweep(v, v, p5) {
+			return
 		}
 	}
+	c.Bound("S5", map[string]any{"sets": s5, "plans(leaves,max_list_len)": p5})
+	// ---- S6: every family of the version table: its first, second and last version as terms, the same
+	// ids with and without '+' as entries (one entry may cover several required terms)
+	p6 := []plan{{1, 2}, {2, 2}}
+	if thorough {
+		p6 = []plan{{1, 2}, {2, 2}, {3, 2}}
+	}
+	nf := 0
+	for _, f := range Families() {
+		atoms := familyAtoms(f)
+		if len(atoms) < 2 {
+			continue
+		}
+		nf++
+		entries := append([]string{}, atoms...)
+		for _, a := range atoms {
+			if NormTerm(a+"+").Valid && Valid1(a+"+") == 1 {
+				entries = append(entries, a+"+")
+			}
+		}
+		if !sweep(atoms, entries, p6) {
+			return
+		}
+	}
+	c.Bound("S6", map[string]any{"families": nf, "terms": "first id of the first, second and last version step", "entries": "those ids, plain and with '+'", "plans(leaves,max_list_len)": p6})
 }
 
 func popcount(x uint32) int {
